@@ -208,7 +208,9 @@ def _case(draw, pid, tier):
         labelled, algos, polytomy = True, ["ext_spfs", "superdtl"], True
     elif pid == "C09":
         labelled = draw(st.integers(0, 2)) != 0
-        algos = (["ext_spfs", "superdtl", "base_spfs", "base_uspfs"] if labelled else ["thl"])
+        # the extended solvers contain the code paths of the base variants and more
+        algos = (["ext_spfs", "ext_spfs", "superdtl", "superdtl", "base_spfs", "base_uspfs"]
+                 if labelled else ["thl"])
         regime = "large"
     elif pid == "C10":
         labelled = True
